@@ -702,7 +702,7 @@ def invalid_name_slots(x):
     member, destination, error name)."""
     bad = []
     if x['cls'] in ('call', 'sig'):
-        if not R.valid_path(x['path']):
+        if x['path'] is not None and not R.valid_path(x['path']):
             bad.append(('path', x['path']))
         if not R.valid_member(x['member']):
             bad.append(('member', x['member']))
@@ -885,6 +885,40 @@ BAD_NAMES = ['', 'a.', '.a', 'a..b', '1a.b', 'a.b-c', ':1.2', 'a b', 'a', 'a.1b'
              'a.b\n', 'a/b', ':1.', ':.a', 'a:b.c', '-a.b', 'a.-b', ':1.2.', ':', 'a.b:', '٣a.b', 'a.٣']
 BAD_PATHS = ['', 'a', '/a/', '//', '/a//b', '/a b', '/a.b', '/a-b', 'a/b', '/é', '/a\n', '/a/b/', ' /a']
 BAD_MEMBERS = ['', '1a', 'a.b', 'a b', 'a-b', 'é', 'a\n', 'm' * 256, '.', ':a', '٣a']
+
+
+SLOTS = {'call': ['path', 'member', 'interface', 'destination'], 'ret': ['destination'],
+         'err': ['error_name', 'destination'], 'sig': ['path', 'member', 'interface', 'destination']}
+
+
+def enum_bad_names(marshal):
+    """Every constructor x every name argument x every name of the enumeration (and None for the arguments that
+    are not optional), everything else valid and minimal: a finite set, run completely in both tiers."""
+    out = []
+    for cls in CLASSES:
+        base = {'cls': cls, 'er': True, 'as': True, 'oob': None, 'signature': None, 'body_line': None, 'abs': [],
+                'next': 5, 'max': DEFAULT_MAX}
+        for a in ATTRS:
+            base.setdefault(a, None)
+        if cls in ('call', 'sig'):
+            base.update(path='/a', member='m')
+        if cls == 'sig':
+            base['interface'] = 'a.b'
+        if cls in ('ret', 'err'):
+            base['reply_serial'] = 1
+        if cls == 'err':
+            base['error_name'] = 'a.b'
+        for slot in SLOTS[cls]:
+            pool = BAD_PATHS if slot == 'path' else BAD_MEMBERS if slot == 'member' else BAD_NAMES
+            names = list(pool) + ['/org/freedesktop/DBus/Local'] * (slot == 'path')
+            if (slot == 'member') or (slot == 'interface' and cls == 'sig') or slot == 'error_name':
+                names.append(None)
+            for nm in names:
+                x = dict(base)
+                x[slot] = nm
+                x['_what'] = 'enum:' + slot
+                out.append(x)
+    return out
 
 
 def g_malformed(rng, marshal):
@@ -1132,7 +1166,7 @@ def body_of(raw, big):
 
 def run_malformed(ctx, marshal, message, n):
     rng = ctx.rng
-    cases = []
+    cases = enum_bad_names(marshal)
     for _ in range(n):
         x = g_malformed(rng, marshal)
         if x['_what'] == 'limit':
